@@ -82,11 +82,13 @@ def parseImpl (s : String) : Option Impl :=
 def renderF (fc : List Event) (fcerr : String) (post : Inv) : String :=
   s!"fc={showL "," showEvent fc} fcerr={fcerr} post={showL ";" showShard (sortInv post)}"
 
-/-- class of a convergence failure: only shards that were already there before the run, carry a discovered
-    repository's name and source, and sit at a path other than that repository's first shard path are to blame -/
+/-- class of a convergence failure. `stale-shard-kept` (the known finding) only if the shards to blame were already
+    there before the run, carry a discovered repository's name and source and lay *outside* the contiguous shard run
+    `FindAllShards` sees for that repository in the prior state (so neither IndexState nor Builder.Finish ever look at
+    them), and the rest of the final inventory is as the statement demands. Anything else is `not-converged`. -/
 def convergenceKey (cwd : String) (desired : List Repo) (inv post : Inv) : String :=
   let stray := post.filter fun s => inv.contains s && desired.any fun r =>
-    decide (ident cwd s = identR cwd r) && decide (s.path ≠ r.shard0)
+    decide (ident cwd s = identR cwd r) && !((allShards inv r).contains s.path)
   let post' := post.filter (fun s => !stray.contains s)
   if !stray.isEmpty && converged cwd desired post' then "stale-shard-kept" else "not-converged"
 
